@@ -5,6 +5,7 @@ package hpack
 
 //@ -- static table: 61 entries, never evicted
 //@ globalinv [C18:static-table-shape] staticTable != nil && len(staticTable.ents) == 61 && staticTable.evictCount == 0
+//@ globalinv [C18:static-table-entries-small] forall k int :: 0 <= k && k < 61 ==> entSize(staticTable.ents[k]) <= 1024
 
 //@ -- table representation: ents[k] has unique id k + evictCount + 1; byName / byNameValue map to the id of the
 //@ -- NEWEST entry with that name / pair, and only to ids of live entries.
@@ -79,6 +80,7 @@ package hpack
 //@   ensures [C18:size-is-sum-of-entries] dtInv(dt)
 //@   ensures [C18:only-oldest-evicted] len(dt.table.ents) <= len(old(dt.table.ents)) && dt.table.ents == old(dt.table.ents)[len(old(dt.table.ents)) - len(dt.table.ents):]
 //@   ensures [C18:nothing-evicted-when-within-limit] old(dt.size) <= dt.maxSize ==> dt.table.ents == old(dt.table.ents) && dt.size == old(dt.size)
+//@   ensures [C18:unique-ids-stable] dt.table.evictCount + len(dt.table.ents) == old(dt.table.evictCount) + len(old(dt.table.ents))
 //@   ensures [C18:evicts-no-more-than-needed] len(dt.table.ents) < len(old(dt.table.ents)) ==> old(dt.size) - szTo(old(dt.table.ents), len(old(dt.table.ents)) - len(dt.table.ents) - 1) > dt.maxSize
 //@   use szShift(old(dt.table.ents), len(old(dt.table.ents)) - len(dt.table.ents), len(dt.table.ents))
 //@   loop 1 use szMono(dt.table.ents, n + 1, len(dt.table.ents))
@@ -91,6 +93,7 @@ package hpack
 //@   ensures [C18:limit-takes-effect-at-once] dt.maxSize == v && dt.size <= v && dtInv(dt)
 //@   ensures [C18:only-oldest-evicted] len(dt.table.ents) <= len(old(dt.table.ents)) && dt.table.ents == old(dt.table.ents)[len(old(dt.table.ents)) - len(dt.table.ents):]
 //@   ensures [C18:nothing-evicted-when-within-limit] old(dt.size) <= v ==> dt.table.ents == old(dt.table.ents)
+//@   ensures [C18:unique-ids-stable] dt.table.evictCount + len(dt.table.ents) == old(dt.table.evictCount) + len(old(dt.table.ents))
 
 //@ func (*dynamicTable).add :: dt, f
 //@   props C18,C10
@@ -101,6 +104,7 @@ package hpack
 //@   cut c1 after addEntry#1 use szApp(old(dt.table.ents), f, len(old(dt.table.ents)))
 //@   ensures [C18:table-within-permitted-size] dt.size <= dt.maxSize && dtInv(dt)
 //@   ensures [C18:new-entry-newest-older-ones-evicted-first] len(dt.table.ents) <= len(old(dt.table.ents)) + 1 && dt.table.ents == (old(dt.table.ents) ++ seq[HeaderField]{f})[len(old(dt.table.ents)) + 1 - len(dt.table.ents):]
+//@   ensures [C18:unique-ids-advance-by-one] dt.table.evictCount + len(dt.table.ents) == old(dt.table.evictCount) + len(old(dt.table.ents)) + 1
 //@   ensures [C18:entry-larger-than-table-empties-it] entSize(f) > dt.maxSize ==> len(dt.table.ents) == 0
 //@   ensures [C18:entry-that-fits-is-kept] entSize(f) <= dt.maxSize ==> len(dt.table.ents) >= 1 && dt.table.ents[len(dt.table.ents)-1] == f
 //@   use szNonNeg(dt.table.ents, len(dt.table.ents) - 1)
@@ -114,7 +118,8 @@ package hpack
 //@   assigns owner.emitted
 //@   ensures owner.emitted == old(owner.emitted) ++ seq[HeaderField]{f}
 
-//@ pure func decInv(d *Decoder) bool = dtInv(d.dynTab) && d.dynTab.table != staticTable && idRoom(d.dynTab.table)
+//@ -- every field representation takes at least one input byte, so the ids still needed are bounded by the unparsed input
+//@ pure func decInv(d *Decoder) bool = dtInv(d.dynTab) && d.dynTab.table != staticTable && d.dynTab.table.evictCount + len(d.dynTab.table.ents) + len(d.buf) < 4611686018427387904
 
 //@ func (*Decoder).maxTableIndex :: d -> n
 //@   props C18
@@ -141,3 +146,76 @@ package hpack
 //@   ensures [C18:need-more-only-when-truncated] err == errNeedMore ==> len(p) <= 9 && (forall j int :: 1 <= j && j < len(p) ==> p[j] >= 128)
 //@   ensures [C18:overlong-integer-rejected] err != nil && err != errNeedMore ==> len(p) >= 10 && (forall j int :: 1 <= j && j < 10 ==> p[j] >= 128)
 //@   loop 1 invariant origP == old(p) && len(p#1) < len(origP) && p#1 == origP[len(origP) - len(p#1):] && m == 7 * (len(origP) - len(p#1) - 1) && m < 63 && (forall j int :: 1 <= j && j < len(origP) - len(p#1) ==> origP[j] >= 128)
+
+//@ func (*Decoder).readString :: d, p -> u, remain, err
+//@   props C18,C10
+//@   requires d != nil
+//@   requires [C18:string-limit-not-negative] d.maxStrLen >= 0
+//@   assigns nothing
+//@   ensures [C18:string-error-kinds] err != nil ==> err == errNeedMore || err == ErrStringLength || err.(DecodingError)
+//@   ensures [C18:string-success-consumes-a-prefix] err == nil ==> len(remain) + len(u.b) < len(p) && remain == p[len(p) - len(remain):] && u.b == p[len(p) - len(remain) - len(u.b):len(p) - len(remain)] && (u.isHuff <==> p[0] >= 128)
+//@   ensures [C18:string-length-limit-enforced-before-buffering] err == nil && d.maxStrLen != 0 ==> len(u.b) <= d.maxStrLen
+
+//@ -- Huffman decoding and the buffer pool are outside the generator's subset (variable shifts, sync.Pool): assumed
+//@ func (*Decoder).decodeString :: d, u -> s, err
+//@   props C18
+//@   trusted
+//@   assigns nothing
+//@   ensures err == nil && !u.isHuff ==> s == u.b
+//@   ensures err == nil ==> len(s) <= 2 * len(u.b) && (d.maxStrLen != 0 && u.isHuff ==> len(s) <= d.maxStrLen)
+//@   ensures err != nil ==> u.isHuff && err != errNeedMore
+
+//@ pure func emitOK(d *Decoder) bool = d.emitEnabled ==> d.emit != nil
+//@ pure func tooLong(d *Decoder, hf HeaderField) bool = d.maxStrLen != 0 && (len(hf.Name) > d.maxStrLen || len(hf.Value) > d.maxStrLen)
+
+//@ func (*Decoder).callEmit :: d, hf -> err
+//@   props C18,C10
+//@   requires d != nil && emitOK(d)
+//@   assigns d.emitted
+//@   ensures [C18:overlong-field-rejected-not-emitted] tooLong(d, hf) ==> err == ErrStringLength && d.emitted == old(d.emitted)
+//@   ensures [C18:field-emitted-once-in-order] !tooLong(d, hf) ==> err == nil && d.emitted == ite(d.emitEnabled, old(d.emitted) ++ seq[HeaderField]{hf}, old(d.emitted))
+
+//@ -- state bounds under which the 32-bit size arithmetic is exact (stated as a precondition of Write; see DESIGN.md)
+//@ lemma [C18:ledger-entry-below-sum] szEach(e seq[HeaderField], j int, k int) induction k from 0 using szNonNeg = 0 <= j && j < k && k <= len(e) ==> entSize(e[j]) <= szTo(e, k)
+//@ pure func smallState(d *Decoder) bool = decInv(d) && d.maxStrLen >= 0 && d.dynTab.size <= d.dynTab.maxSize && d.dynTab.maxSize <= 1073741824 && d.dynTab.allowedMaxSize <= 1073741824 && len(d.buf) <= 268435456
+
+//@ func (*Decoder).parseFieldIndexed :: d -> err
+//@   props C18,C10
+//@   requires d != nil && smallState(d) && emitOK(d)
+//@   assigns d.buf, d.emitted
+//@   ensures [C18:success-consumes-a-prefix] err == nil ==> len(d.buf) < len(old(d.buf)) && d.buf == old(d.buf)[len(old(d.buf)) - len(d.buf):]
+//@   ensures [C18:need-more-changes-nothing] err == errNeedMore ==> d.buf == old(d.buf) && d.emitted == old(d.emitted)
+//@   ensures [C18:at-most-one-field-emitted] d.emitted == old(d.emitted) || (err == nil && d.emitEnabled && len(d.emitted) == len(old(d.emitted)) + 1 && d.emitted[:len(old(d.emitted))] == old(d.emitted) && !d.emitted[len(old(d.emitted))].Sensitive)
+//@   ensures [C18:success-means-emitted-when-enabled] err == nil && d.emitEnabled ==> len(d.emitted) == len(old(d.emitted)) + 1
+
+//@ func (*Decoder).parseDynamicTableSizeUpdate :: d -> err
+//@   props C18,C10
+//@   requires d != nil && smallState(d)
+//@   assigns d.buf, d.dynTab.maxSize, d.dynTab.size, d.dynTab.table.ents, d.dynTab.table.evictCount, mapOf(d.dynTab.table.byName), mapOf(d.dynTab.table.byNameValue)
+//@   ensures [C18:size-update-only-at-block-start] !old(d.firstField) && old(d.dynTab.size) > 0 ==> err != nil && err != errNeedMore && d.buf == old(d.buf) && d.dynTab.maxSize == old(d.dynTab.maxSize) && d.dynTab.table.ents == old(d.dynTab.table.ents)
+//@   ensures [C18:size-update-within-allowed-maximum] err == nil ==> d.dynTab.maxSize <= d.dynTab.allowedMaxSize && d.dynTab.size <= d.dynTab.maxSize
+//@   ensures [C18:success-consumes-a-prefix] err == nil ==> len(d.buf) < len(old(d.buf)) && d.buf == old(d.buf)[len(old(d.buf)) - len(d.buf):]
+//@   ensures [C18:failure-changes-nothing] err != nil ==> d.buf == old(d.buf) && d.dynTab.maxSize == old(d.dynTab.maxSize) && d.dynTab.table.ents == old(d.dynTab.table.ents) && d.dynTab.size == old(d.dynTab.size)
+//@   ensures [C18:table-stays-consistent] smallState(d) || err != nil
+
+//@ func indexType.indexed :: v -> r
+//@   props C18
+//@   assigns nothing
+//@   ensures r <==> v == 0
+//@ func indexType.sensitive :: v -> r
+//@   props C18
+//@   assigns nothing
+//@   ensures r <==> v == 2
+
+//@ func (*Decoder).parseFieldLiteral :: d, n, it -> err
+//@   props C18,C10
+//@   requires d != nil && smallState(d) && emitOK(d) && (n == 4 || n == 6) && 0 <= it && it <= 2
+//@   assigns d.buf, d.emitted, d.dynTab.size, d.dynTab.table.ents, d.dynTab.table.evictCount, mapOf(d.dynTab.table.byName), mapOf(d.dynTab.table.byNameValue)
+//@   cut h1 after at#1 use szEach(d.dynTab.table.ents, len(d.dynTab.table.ents) - (nameIdx - 61), len(d.dynTab.table.ents))
+//@   ensures [C18:need-more-changes-nothing] err == errNeedMore ==> d.buf == old(d.buf) && d.emitted == old(d.emitted) && d.dynTab.table.ents == old(d.dynTab.table.ents) && d.dynTab.size == old(d.dynTab.size)
+//@   ensures [C18:success-consumes-a-prefix] err == nil ==> len(d.buf) < len(old(d.buf)) && d.buf == old(d.buf)[len(old(d.buf)) - len(d.buf):]
+//@   ensures [C18:only-incremental-indexing-touches-the-table] it != 0 ==> d.dynTab.table.ents == old(d.dynTab.table.ents) && d.dynTab.size == old(d.dynTab.size)
+//@   ensures [C18:at-most-one-field-emitted] d.emitted == old(d.emitted) || (err == nil && d.emitEnabled && len(d.emitted) == len(old(d.emitted)) + 1 && d.emitted[:len(old(d.emitted))] == old(d.emitted))
+//@   ensures [C18:success-means-emitted-when-enabled] err == nil && d.emitEnabled ==> len(d.emitted) == len(old(d.emitted)) + 1 && (d.emitted[len(old(d.emitted))].Sensitive <==> it == 2)
+//@   ensures [C18:indexed-literal-becomes-newest-entry] err == nil && it == 0 && d.emitEnabled && len(d.dynTab.table.ents) > 0 && entSize(d.emitted[len(old(d.emitted))]) <= d.dynTab.maxSize ==> d.dynTab.table.ents[len(d.dynTab.table.ents)-1].Name == d.emitted[len(old(d.emitted))].Name && d.dynTab.table.ents[len(d.dynTab.table.ents)-1].Value == d.emitted[len(old(d.emitted))].Value
+//@   ensures [C18:table-stays-consistent] smallState(d) || (err != nil && err != errNeedMore)
